@@ -47,6 +47,9 @@ type FailCase struct {
 	// .spok/cache.json read-only, "dir" the .spok directory. spok may refuse to run; if it does run
 	// a task and that task fails, the task is still not up to date afterwards.
 	ROCache string `json:"ro_cache,omitempty"`
+	// StaleCache (without Prime): the cache was created by an earlier version of the spokfile that
+	// had none of these tasks (a single task "warmup" was run once); the tasks were added afterwards
+	StaleCache bool `json:"stale_cache,omitempty"`
 }
 
 var failNames = []string{"alpha", "bravo", "charlie", "delta"}
@@ -57,6 +60,9 @@ func genFail(t *rapid.T) FailCase {
 	c := genFailBody(t)
 	c.ProjDir = genProjDir(t)
 	c.Invoke = genInvoke(t)
+	if !c.Prime && rapid.IntRange(0, 2).Draw(t, "stale_cache") == 0 {
+		c.StaleCache = true
+	}
 	if c.Prime && rapid.IntRange(0, 4).Draw(t, "ro_cache") == 0 {
 		c.ROCache = rapid.SampledFrom([]string{"file", "dir"}).Draw(t, "ro_cache_kind")
 	}
@@ -195,6 +201,19 @@ func execFail(s *ev.Shard, b *sandbox.Box, c FailCase) *rp.Fail {
 		request = nil
 	}
 	args := append(append([]string(nil), c.Flags...), request...)
+	if c.StaleCache && !c.Prime {
+		warm := "task warmup(\"in.txt\") {\n    echo warm >> $LOG\n}\n"
+		if err := writeProject(b, b.Proj, map[string]string{"spokfile": warm}); err != nil {
+			return &rp.Fail{Sig: "harness", Msg: err.Error()}
+		}
+		if r0 := b.Run(b.Proj, env, runTimeout, "warmup"); r0.Exit != 0 {
+			return &rp.Fail{Sig: "harness", Msg: "warm-up run failed: " + sandbox.Strip(r0.Stderr)}
+		}
+		if err := writeProject(b, b.Proj, map[string]string{"spokfile": src}); err != nil {
+			return &rp.Fail{Sig: "harness", Msg: err.Error()}
+		}
+		_ = os.Remove(logPath)
+	}
 	if c.Prime {
 		// every command succeeds while the failures are disarmed
 		if r0 := b.Run(b.Proj, env, runTimeout, request...); r0.Exit != 0 {
@@ -224,6 +243,9 @@ func execFail(s *ev.Shard, b *sandbox.Box, c FailCase) *rp.Fail {
 	log1 := readLog(logPath)
 	F := c.failedTasks(log1)
 	desc := fmt.Sprintf("spokfile:\n%s`spok %s`", src, strings.Join(args, " "))
+	if c.StaleCache && !c.Prime {
+		desc = fmt.Sprintf("spokfile:\n%s(its tasks were added after the cache had been created by an older spokfile) `spok %s`", src, strings.Join(args, " "))
+	}
 	if c.Prime {
 		desc = fmt.Sprintf("spokfile:\n%s(after a first run of %v in which every command succeeded) `spok %s`", src, c.Request, strings.Join(args, " "))
 		if c.ROCache != "" {
@@ -294,6 +316,9 @@ func execFail(s *ev.Shard, b *sandbox.Box, c FailCase) *rp.Fail {
 		s.Class("flags_" + strings.Join(c.Flags, ""))
 		if c.Prime {
 			s.Class("failure_on_populated_cache")
+		}
+		if c.StaleCache && !c.Prime {
+			s.Class("tasks_added_after_cache_was_created")
 		}
 		if c.ROCache != "" && c.Prime {
 			s.Class("failing_run_with_unwritable_cache")
